@@ -317,7 +317,7 @@ def check_boundaries(c, spans, rechunked, what):
                 check(x in edges or gen.admissible(c.srows, x), what + ".boundary_straddles_row", (x, spans, d))
 
 
-def check_disk_and_metadata(c, dirname, serial_save):
+def check_disk_and_metadata(c, dirname):
     """Returns (chunk entries, decoded rows per entry)."""
     d = c.d
     md_name = f"{DATA_TYPE}-{LINEAGE_HASH}-metadata.json"
@@ -482,7 +482,7 @@ def save_and_check(c, dirname, ex):
         sv.save_from(c.chunks(), rechunk=d["rechunk"], executor=ex if d["pool_s"] else None)
     except Exception as e:  # noqa
         raise Violation("save.raised:" + type(e).__name__, f"{e!r} {d}") from e
-    entries, rows_per_entry = check_disk_and_metadata(c, dirname, not d["pool_s"])
+    entries, rows_per_entry = check_disk_and_metadata(c, dirname)
     return be, entries, rows_per_entry
 
 
@@ -560,10 +560,9 @@ def _sig_f30(sub, desc, bucket, message):
 
 
 SUBCHECKS = [
-    SubCheck("roundtrip", run_roundtrip, strategy=st_roundtrip, quick=6000, thorough=150000,
-             required_classes=("comp:blosc", "comp:zstd", "comp:lz4", "comp:bz2", "enc:endtime", "enc:dt",
-                               "rechunk_changed_layout", "empty_chunk", "zero_duration_chunk", "array_field",
-                               "titled_field", "save_pool", "load_pool", "overlapping_rows")),
+    # no required_classes: classes are only recorded for passing cases, so a defect that breaks every case of a
+    # class (e.g. every rechunked save) would be masked as a generator problem
+    SubCheck("roundtrip", run_roundtrip, strategy=st_roundtrip, quick=5000, thorough=200000),
     SubCheck("grid", run_roundtrip, enumerate=enum_grid),
     SubCheck("load_rechunk", run_load_rechunk, strategy=st_load_rechunk, quick=1500, thorough=30000),
 ]
